@@ -754,6 +754,66 @@ func ruleResetReleases() check.Rule {
 				}
 				return true
 			})
+			// (1c) reset is always called with this subscription's own copies of the connection (the variables bound from the
+			// get-or-create call), and the upstream subscription is handed to that same connection subscription
+			ownCopies := map[types.Object]bool{}
+			ast.Inspect(sc.Lit.Body, func(x ast.Node) bool {
+				as, ok := x.(*ast.AssignStmt)
+				if !ok || len(as.Rhs) != 1 || len(as.Lhs) < 2 {
+					return true
+				}
+				call, ok := ast.Unparen(as.Rhs[0]).(*ast.CallExpr)
+				if !ok {
+					return true
+				}
+				if fid, ok := ast.Unparen(call.Fun).(*ast.Ident); ok {
+					if fv, isVar := objOf(info, fid).(*types.Var); isVar && locals[fv] {
+						for _, l := range as.Lhs {
+							if id, ok := l.(*ast.Ident); ok && id.Name != "_" {
+								ownCopies[objOf(info, id)] = true
+							}
+						}
+					}
+				}
+				return true
+			})
+			nReset := 0
+			ast.Inspect(sc.Lit.Body, func(x ast.Node) bool {
+				call, ok := x.(*ast.CallExpr)
+				if !ok {
+					return true
+				}
+				if id, ok := ast.Unparen(call.Fun).(*ast.Ident); !ok || objOf(info, id) != resetVar {
+					return true
+				}
+				nReset++
+				key := fmt.Sprintf("ro.ShareWithConfig/reset-call#%d-own-connection", nReset)
+				bad := ""
+				for _, a := range call.Args {
+					aid, ok := ast.Unparen(a).(*ast.Ident)
+					if !ok || !ownCopies[objOf(info, aid)] {
+						bad = types.ExprString(a)
+					}
+				}
+				if bad == "" {
+					c.OK(key, call.Pos(), "reset is given this subscription's own copies of the connection")
+				} else {
+					c.Violation(key, call.Pos(), "reset is called with %s, which is not one of the copies this subscription took from the get-or-create call: it resets a connection that is not (or no longer) its own, or releases the wrong subscription", bad)
+				}
+				return true
+			})
+			for _, op := range sc.SubOps {
+				if op.Method != "AddUnsubscribable" || op.Arg == nil || op.Arg.Kind != model.AVSub || op.Arg.Site == nil || op.Arg.Site.Source == nil || op.Arg.Site.Source.Kind != model.AVParam {
+					continue
+				}
+				key := "ro.ShareWithConfig/upstream-owned-by-connection"
+				rid, _ := rootIdent(op.RecvExpr)
+				if rid != nil && ownCopies[objOf(info, rid)] {
+					c.OK(key, op.Pos, "the upstream subscription is handed to the connection's own subscription")
+				} else {
+					c.Violation(key, op.Pos, "the upstream subscription is handed to %s instead of the connection subscription taken from the get-or-create call: it is released with one subscriber (cutting the others off) or never", types.ExprString(op.RecvExpr))
+				}
+			}
 			// (2) the teardown calls reset inside a branch that tests refCount == 0
 			okTd := false
 			for _, tr := range sc.Teardowns {
